@@ -4,9 +4,14 @@
 //!                            (same request language as the Lean driver).
 //! `harness prop  < cases`  — evaluates the property itself on the implementation.
 mod codec;
+mod dump;
+mod events;
 mod frame;
 mod timing;
+mod hitobj;
+mod sections;
 mod util;
+mod whole;
 
 use std::io::{self, BufRead, Write};
 use std::panic::{self, AssertUnwindSafe};
@@ -49,6 +54,10 @@ fn dispatch_impl(toks: &[&str]) -> String {
     None.or_else(|| frame::dispatch_impl(toks))
         .or_else(|| codec::dispatch_impl(toks))
         .or_else(|| timing::dispatch_impl(toks))
+        .or_else(|| sections::dispatch_impl(toks))
+        .or_else(|| hitobj::dispatch_impl(toks))
+        .or_else(|| whole::dispatch_impl(toks))
+        .or_else(|| events::dispatch_impl(toks))
         .unwrap_or_else(|| "bad-request".to_owned())
 }
 
@@ -56,5 +65,9 @@ fn dispatch_prop(toks: &[&str]) -> String {
     None.or_else(|| frame::dispatch_prop(toks))
         .or_else(|| codec::dispatch_prop(toks))
         .or_else(|| timing::dispatch_prop(toks))
+        .or_else(|| sections::dispatch_prop(toks))
+        .or_else(|| hitobj::dispatch_prop(toks))
+        .or_else(|| whole::dispatch_prop(toks))
+        .or_else(|| events::dispatch_prop(toks))
         .unwrap_or_else(|| "SKIP no-oracle".to_owned())
 }
